@@ -77,6 +77,7 @@ typedef struct {
     uint64_t trace_hash;
     uint64_t steps;          /* wrapped calls in this run */
     uint64_t op_steps;       /* wrapped calls in the current op */
+    uint64_t alloc_steps, op_alloc_steps; int alloc_op_mark;      /* allocator calls in the run / in the current op (sim_alloc_step) */
     uint64_t step_budget;    /* per op */
     int64_t  clock_us;       /* simulated clock */
     int   verbose;           /* exec mode: print the trace */
@@ -93,6 +94,7 @@ void tr_u64(const char *tag, uint64_t v);
 void sim_fail(const char *vclass, const char *fmt, ...) __attribute__((noreturn, format(printf, 2, 3)));
 void sim_skip(const char *why) __attribute__((noreturn));
 void sim_step(void);          /* count one wrapped call, enforce the budget */
+void sim_alloc_step(void);    /* count one allocator call: progress for the CPU watchdog, and a budget of its own */
 const char *cur_kind(void);
 
 void probe_hit(const char *name);
@@ -106,7 +108,7 @@ enum { FILL_00 = 0, FILL_FF = 1, FILL_A5 = 2, FILL_RANDOM = 3, FILL_PTR = 4 };
 enum { REALLOC_MOVE = 0, REALLOC_INPLACE = 1, REALLOC_RANDOM = 2 };
 enum { REUSE_NEVER = 0, REUSE_LIFO = 1, REUSE_QUARANTINE = 2 };
 enum { PLACE_COMPACT = 0, PLACE_FAR = 1 };
-typedef struct { int fill, realloc_policy, reuse, place; uint64_t seed; } sa_cfg_t;
+typedef struct { int fill, realloc_policy, reuse, place; uint64_t seed; int zero_null, realloc0_unique; } sa_cfg_t;      /* zero_null: malloc(0) is NULL; realloc0_unique: realloc(p, 0) releases p and hands out a fresh block of no bytes (both as ISO C allows) */
 void   sa_init(void);
 void   sa_reset(const sa_cfg_t *cfg);
 void   sa_set_fill(int fill);                                       /* change the fresh-memory fill mid-run (garbage differential) */
